@@ -189,6 +189,23 @@ def r52(ctx, res, resolved):
                                           construct=construct + " universal loop")
                     continue
                 raise AnalysisError("%s: constant return in the composite branch %s" % (where, construct))
+            if x == "ConvexPolygon":
+                # all(v in S for v in X.points): the comprehension form of the universal vertex loop
+                from ..astutil import expand_locals
+                tv = expand_locals(fi.node, t.value, fi.params)
+                if isinstance(tv, ast.Call) and isinstance(tv.func, ast.Name) and tv.func.id == "all" and len(tv.args) == 1 \
+                        and isinstance(tv.args[0], (ast.GeneratorExp, ast.ListComp)):
+                    ge = tv.args[0]
+                    n += 1
+                    ok = len(ge.generators) == 1 and not ge.generators[0].ifs and isinstance(ge.generators[0].target, ast.Name) \
+                        and txt(ge.generators[0].iter) == "%s.points" % x_name and is_membership(ge.elt, ge.generators[0].target.id, s_name)
+                    why = "all(... in %s) over every vertex %s.points" % (s_name, x_name) if ok else \
+                        "`%s` is not a universal quantifier over all of %s.points testing membership in %s" % (txt(tv)[:60], x_name, s_name)
+                    res.ob("R5.2", where, construct, ok, why)
+                    if not ok:
+                        res.violation("R5.2", fi, t, "`%s in %s` must hold for every vertex of the polygon: %s" % (x, s, why),
+                                      construct=construct + " universal loop")
+                    continue
             cs = conjuncts(fi, t.value)
             n += 1
             if cs is None:
@@ -273,10 +290,16 @@ def r53_point_branches(ctx, res):
         g = ctx.cfg(m)
         pfields = point_fields(eng, cname)
 
-        def has_carrier(e) -> bool:
+        from ..astutil import expand_locals
+        want_neg = "%s not in %s.%s" % (other, me, carriers[0])
+
+        def has_carrier(e, positive=True) -> bool:
+            """does `e` (locals expanded, and everything it depends on) contain the carrier membership test?"""
             visited = []
             cond_deps(ctx, m, e, visited)
-            return any(isinstance(x, ast.Compare) and txt(x) == want for v in visited for x in ast.walk(v))
+            visited.append(expand_locals(m.node, e, m.params))
+            w = want if positive else want_neg
+            return any(isinstance(x, ast.Compare) and txt(x) == w for v in visited for x in ast.walk(v))
 
         for r in [x for x in walk_local(m.node) if isinstance(x, ast.Return) and id(x) in sm.reached]:
             n += 1
@@ -290,13 +313,13 @@ def r53_point_branches(ctx, res):
                 dom = g.dominating_edges(nid[0]) if nid else []
                 for cnode, _, lab in dom:
                     ce = g.nodes[cnode].ast
-                    if lab == "T" and has_carrier(ce):
+                    if (lab == "T" and has_carrier(ce)) or (lab == "F" and has_carrier(ce, positive=False)):
                         ok, why = True, "only reached when `%s` holds" % want
                     # coincidence with a defining point: Vector(self.<point field>, other).length() < get_eps()
-                    if lab == "T" and isinstance(ce, ast.Compare) and "get_eps()" in txt(ce):
-                        visited = []
-                        cond_deps(ctx, m, ce, visited)
-                        t = " ".join(txt(v) for v in visited)
+                    cx = expand_locals(m.node, ce, m.params)
+                    if lab == "T" and isinstance(cx, ast.Compare) and len(cx.ops) == 1 and isinstance(cx.ops[0], (ast.Lt, ast.LtE)) \
+                            and "get_eps()" in txt(cx.comparators[0]):
+                        t = txt(cx.left)
                         if any("Vector(%s.%s, %s)" % (me, f, other) in t or "Vector(%s, %s.%s)" % (other, me, f) in t for f in pfields) \
                                 and ".length()" in t:
                             ok, why = True, "the point coincides with a defining point of the %s (within eps)" % cname
